@@ -544,7 +544,13 @@ func validateValueForEncoding(element InfoElementWithValue) error {
 			return fmt.Errorf("provided OctetArray value is too long and cannot be encoded: len=%d, maxlen=%d", len(v), math.MaxUint16)
 		}
 	case String:
-		if v := element.GetStringValue(); len(v) > math.MaxUint16 {
+		v := element.GetStringValue()
+		ieLen := element.GetInfoElement().Len
+		if ieLen < VariableLength {
+			if len(v) != int(ieLen) {
+				return fmt.Errorf("invalid value for fixed-length string %s: length is %d, expected %d", element.GetName(), len(v), ieLen)
+			}
+		} else if len(v) > math.MaxUint16 {
 			return fmt.Errorf("provided String value is too long and cannot be encoded: len=%d, maxlen=%d", len(v), math.MaxUint16)
 		}
 	case MacAddress:
@@ -639,7 +645,13 @@ func encodeInfoElementValueToBuff(element InfoElementWithValue, buffer []byte, i
 		}
 	case String:
 		v := element.GetStringValue()
-		if len(v) < 255 {
+		if ieLen := element.GetInfoElement().Len; ieLen < VariableLength {
+			// fixed length case: no length prefix
+			if len(v) != int(ieLen) {
+				return fmt.Errorf("invalid value for fixed-length string: length mismatch")
+			}
+			copy(buffer[index:], v)
+		} else if len(v) < 255 {
 			buffer[index] = uint8(len(v))
 			// See https://pkg.go.dev/builtin#copy
 			// As a special case, it also will copy bytes from a string to a slice of bytes.
